@@ -79,6 +79,10 @@ def run_case(case, ctx):
         conds = {c: codec.dec(v, sess) for c, v in cond['kw'].items()}
         if cond.get('as') == 'dict':
             args, kw = (dict(conds),), {}
+        elif cond.get('as') in ('Dict', 'dictattr'):
+            # the conjunction held in one of the library's own mappings (e.g. a row taken from another table)
+            import pyg_base as _pb
+            args, kw = (getattr(_pb, cond['as'])(conds),), {}
         elif cond.get('as') == 'split' and len(conds) >= 2:
             ks = list(conds)
             args, kw = ({k: conds[k] for k in ks[:1]},), {k: conds[k] for k in ks[1:]}       # one conjunction spread over a dict filter and keywords
@@ -93,7 +97,7 @@ def run_case(case, ctx):
     snap0 = core.snap(dict(d))
 
     def fresh_args():
-        return tuple(dict(a) if isinstance(a, dict) else a for a in args), dict(kw)
+        return tuple(type(a)(a) if isinstance(a, dict) else a for a in args), dict(kw)
     a1, k1 = fresh_args()
     keep1 = [dict(a) if isinstance(a, dict) else a for a in a1]
     st, inc = ctx.call(d.inc, *a1, **k1)
@@ -248,7 +252,7 @@ def gen_case(rng):
                 if rng.random() < 0.5:
                     cols[c] = [(x.upper() if isinstance(x, str) and rng.random() < 0.5 else x) for x in cols[c]]
             kw[c] = v
-        cond = {'kw': kw, 'as': rng.choice(['kw', 'kw', 'dict', 'split', 'two_dicts'])}
+        cond = {'kw': kw, 'as': rng.choice(['kw', 'kw', 'dict', 'split', 'two_dicts', 'Dict', 'dictattr'])}
     if 'kw' in cond and n and rng.random() < 0.08:
         # a column mixing numbers with strings that spell the same numbers (ids read from two sources), no None: a string condition means the string
         c = names[0]
